@@ -424,7 +424,7 @@ fn big(a: &Args) {
         ("pmh3", 10000, 1), ("pmh3", 20000, 5), ("pmh3a", 10000, 1), ("pmh3a", 30000, 4), ("pmh2", 10000, 2), ("pmh3asha", 8192, 1),
         ("smh2_u64_fnv", 20000, 2), ("smh_f64_fnv", 30000, 1), ("ss_u32", 30000, 2),
         // very large sketches (beyond 2^16 positions)
-        ("pmh3", 100000, 5), ("pmh3a", 70001, 3), ("smh_f64_fnv", 70000, 2), ("smh2_u64_fnv", 66000, 3), ("ss_u16", 70000, 2),
+        ("pmh3", 100000, 5), ("pmh3a", 70001, 3), ("pmh3", 60000, 6), ("pmh3a", 100003, 6), ("smh_f64_fnv", 70000, 2), ("smh2_u64_fnv", 66000, 3), ("ss_u16", 70000, 2),
     ];
     if thorough {
         plan.push(("ss_u16", 4096, 1000000));
@@ -446,9 +446,11 @@ fn big(a: &Args) {
                 m: *m,
                 ss: if kind.starts_with("ss_") { Some(SsParams { b: 1.001, m: *m as u64, a: 20.0, q: if *kind == "ss_u16" { 65534 } else { 100000 } }) } else { None },
             };
-            let dominated = is_pmh && *n <= 8 && *m >= 8000;
+            // n = 6: comparable weights (every entry holds a share of a very large signature); otherwise one heavy entry
+            let dominated = is_pmh && *n <= 8 && *n != 6 && *m >= 8000;
+            let comparable = is_pmh && *n == 6;
             let items: Vec<Item> = (0..*n)
-                .map(|k| Item { id: rng.random::<u64>() >> 1, w: if dominated { if k == 0 { 1e9 } else { 1.0 + k as f64 * 0.25 } } else if is_pmh { weight(2, &mut rng) } else { 1.0 } })
+                .map(|k| Item { id: rng.random::<u64>() >> 1, w: if dominated { if k == 0 { 1e9 } else { 1.0 + k as f64 * 0.25 } } else if comparable { 1.0 + k as f64 } else if is_pmh { weight(2, &mut rng) } else { 1.0 } })
                 .collect();
             let res = catch(|| {
                 // expected: join of single-item tables
